@@ -497,7 +497,7 @@ func randRawURL(r *rng, hostile bool) string {
 			ps = append(ps, "page["+pick(r, []string{"number", "size", "foo", ""})+"]="+url.QueryEscape(v))
 		case 5:
 			v := pick(r, []string{"label", "", "la bel", `{"f":"a","o":"=","v":"x"}`, `{"o":"and","v":[{"f":"a","o":"=","v":"x #y"},{"o":"or","v":[]}]}`,
-				`{"f":"ab","o":"<","v":5,"c":"x"}`, `{"f":"a","o":"=","v":"a+b c"}`, `{"o":"or","v":[{"f":"a","o":"in","v":["1+1","100%&x=y;z?#/"]}]}`, "la+bel", `{bad`, `{"o":"and","v":5}`, `a\nb`, `a\\b`, `{"f":"a","o":"=","v":null}`})
+				`{"f":"ab","o":"<","v":5,"c":"x"}`, `{"f":"a","o":"=","v":"a+b c"}`, `{"o":"or","v":[{"f":"a","o":"in","v":["1+1","100%&x=y;z?#/"]}]}`, "la+bel", "t\x7fb", "a\x01b", "b\xffad", "\u2028x", `{bad`, `{"o":"and","v":5}`, `a\nb`, `a\\b`, `{"f":"a","o":"=","v":null}`})
 			if hostile {
 				v += pick(r, urlReserved)
 			}
